@@ -17,6 +17,7 @@ func init() {
 			ruleRawEOFFlag(c, r, "")
 			ruleReaderFrom(c, r, "")
 			ruleBlockEnd(c, r, "")
+			ruleNewReaderInit(c, r, "")
 			ruleDecoderReadErr(c, r, "")
 			ruleIO(c, r, readerCone(c), "", true)
 		},
